@@ -245,3 +245,221 @@ theorem readBig_ok (bs : Bytes) (n : Nat) (rest : Bytes) (h : readBig bs = .ok (
       subst hn; subst hr
       have : beBytes 0 = [] := rfl
       rw [this]; exact ⟨hbs, by simp⟩
+
+/-! ### readByteArray = readBytes with the exact length -/
+
+theorem readByteArray_ok_iff (n : Nat) (bs s rest : Bytes) :
+    readByteArray n bs = .ok (s, rest) ↔ readBytes bs = .ok (s, rest) ∧ s.length = n := by
+  unfold readByteArray readBytes
+  cases hh : readHead bs with
+  | error e => simp
+  | ok hd =>
+    cases hd with
+    | byte b r =>
+      simp only
+      by_cases hn : n = 1
+      · subst hn
+        simp only [if_true, Except.ok.injEq, Prod.mk.injEq]
+        constructor
+        · rintro ⟨rfl, rfl⟩; exact ⟨⟨rfl, rfl⟩, rfl⟩
+        · rintro ⟨⟨rfl, rfl⟩, _⟩; exact ⟨rfl, rfl⟩
+      · simp only [hn, if_false]
+        constructor
+        · intro h; simp at h
+        · rintro ⟨h1, h2⟩
+          simp only [Except.ok.injEq, Prod.mk.injEq] at h1
+          rw [← h1.1] at h2
+          simp at h2; omega
+    | str m r =>
+      simp only
+      by_cases hl : r.length < m
+      · simp [hl]
+      · simp only [hl, if_false]
+        have hlen : (r.take m).length = m := by rw [List.length_take]; omega
+        by_cases hmn : m = n
+        · subst hmn
+          simp only [ne_eq, not_true_eq_false, if_false]
+          generalize List.take m r = t at hlen
+          generalize List.drop m r = d
+          constructor
+          · intro h
+            refine ⟨h, ?_⟩
+            split at h
+            · split at h
+              · simp at h
+              · simp only [Except.ok.injEq, Prod.mk.injEq] at h
+                rw [← h.1]; exact hlen
+            · simp only [Except.ok.injEq, Prod.mk.injEq] at h
+              rw [← h.1]; exact hlen
+          · rintro ⟨h, _⟩; exact h
+        · have hmn' : m ≠ n := hmn
+          simp only [ne_eq, hmn', not_false_eq_true, if_true]
+          constructor
+          · intro h; simp at h
+          · rintro ⟨h1, h2⟩
+            exfalso
+            generalize List.take m r = t at hlen h1
+            split at h1
+            · split at h1
+              · simp at h1
+              · simp only [Except.ok.injEq, Prod.mk.injEq] at h1
+                rw [← h1.1] at h2; omega
+            · simp only [Except.ok.injEq, Prod.mk.injEq] at h1
+              rw [← h1.1] at h2; omega
+    | list m r => simp
+
+theorem readByteArray_enc (b : Bytes) (hb : b.length < 2 ^ 64) (rest : Bytes) :
+    readByteArray b.length (encStr b ++ rest) = .ok (b, rest) :=
+  (readByteArray_ok_iff _ _ _ _).2 ⟨readBytes_encStr b hb rest, rfl⟩
+
+theorem readByteArray_ok (n : Nat) (bs s rest : Bytes) (h : readByteArray n bs = .ok (s, rest)) :
+    bs = encStr s ++ rest ∧ s.length = n ∧ n < 2 ^ 64 := by
+  obtain ⟨h1, h2⟩ := (readByteArray_ok_iff _ _ _ _).1 h
+  obtain ⟨h3, h4⟩ := readBytes_ok _ _ _ h1
+  exact ⟨h3, h2, by omega⟩
+
+/-! ### readList -/
+
+theorem readList_enc (p : Bytes) (hp : p.length < 2 ^ 64) (rest : Bytes) :
+    readList (header 0xC0 p.length ++ p ++ rest) = .ok (p, rest) := by
+  unfold readList
+  rw [List.append_assoc, readHead_header_list _ hp]
+  simp only [List.length_append, List.take_left', List.drop_left']
+  rw [if_neg (by omega)]
+
+theorem readList_ok (bs p rest : Bytes) (h : readList bs = .ok (p, rest)) :
+    bs = header 0xC0 p.length ++ p ++ rest ∧ p.length < 2 ^ 64 := by
+  unfold readList at h
+  split at h
+  · simp at h
+  · rename_i n r hh
+    obtain ⟨hbs, hn⟩ := readHead_ok_list _ _ _ hh
+    by_cases hl : r.length < n
+    · simp [hl] at h
+    · simp only [hl, if_false, Except.ok.injEq, Prod.mk.injEq] at h
+      obtain ⟨hp, hr⟩ := h
+      have hlen : (r.take n).length = n := by rw [List.length_take]; omega
+      subst hp; subst hr
+      rw [hlen, List.append_assoc, List.take_append_drop]
+      exact ⟨hbs, hn⟩
+  · simp at h
+
+/-! ### readRaw -/
+
+theorem readRaw_ok (bs b rest : Bytes) (h : readRaw bs = .ok (b, rest)) :
+    bs = b ++ rest ∧ readRaw b = .ok (b, []) := by
+  unfold readRaw at h
+  split at h
+  · simp at h
+  · rename_i x r hh
+    obtain ⟨hbs, hx⟩ := readHead_ok_byte _ _ _ hh
+    simp only [Except.ok.injEq, Prod.mk.injEq] at h
+    obtain ⟨hb, hr⟩ := h
+    subst hb; subst hr
+    refine ⟨by simpa using hbs, ?_⟩
+    simp [readRaw, readHead, hx]
+  · rename_i n r hh
+    obtain ⟨hbs, hn⟩ := readHead_ok_str _ _ _ hh
+    by_cases hl : r.length < n
+    · simp [hl] at h
+    · simp only [hl, if_false, Except.ok.injEq, Prod.mk.injEq] at h
+      obtain ⟨hb, hr⟩ := h
+      have hlen : (r.take n).length = n := by rw [List.length_take]; omega
+      subst hb; subst hr
+      refine ⟨by rw [List.append_assoc, List.take_append_drop]; exact hbs, ?_⟩
+      generalize List.take n r = t at hlen
+      subst hlen
+      have := readHead_header_str t.length hn t
+      rw [← List.append_nil (_ ++ t), List.append_assoc] 
+      simp only [readRaw, this, Nat.lt_irrefl, if_false, List.take_length, List.drop_length, List.append_nil]
+  · rename_i n r hh
+    obtain ⟨hbs, hn⟩ := readHead_ok_list _ _ _ hh
+    by_cases hl : r.length < n
+    · simp [hl] at h
+    · simp only [hl, if_false, Except.ok.injEq, Prod.mk.injEq] at h
+      obtain ⟨hb, hr⟩ := h
+      have hlen : (r.take n).length = n := by rw [List.length_take]; omega
+      subst hb; subst hr
+      refine ⟨by rw [List.append_assoc, List.take_append_drop]; exact hbs, ?_⟩
+      generalize List.take n r = t at hlen
+      subst hlen
+      have := readHead_header_list t.length hn t
+      rw [← List.append_nil (_ ++ t), List.append_assoc] 
+      simp only [readRaw, this, Nat.lt_irrefl, if_false, List.take_length, List.drop_length, List.append_nil]
+
+theorem rawOk_iff (b : Bytes) : rawOk b = true ↔ readRaw b = .ok (b, []) := by
+  unfold rawOk
+  constructor
+  · intro h
+    split at h
+    · rename_i b' hb'
+      have := (readRaw_ok _ _ _ hb').1
+      rw [List.append_nil] at this
+      rw [hb', ← this]
+    · simp at h
+  · intro h; rw [h]
+
+/-- a raw value in front of more input is read back as itself. -/
+theorem readRaw_enc (b : Bytes) (hb : rawOk b = true) (rest : Bytes) : readRaw (b ++ rest) = .ok (b, rest) := by
+  rw [rawOk_iff] at hb
+  unfold readRaw at hb
+  split at hb
+  · simp at hb
+  · rename_i x r hh
+    obtain ⟨hbs, hx⟩ := readHead_ok_byte _ _ _ hh
+    simp only [Except.ok.injEq, Prod.mk.injEq] at hb
+    obtain ⟨hb1, hr⟩ := hb
+    subst hr
+    rw [← hb1]
+    simp [readRaw, readHead, hx]
+  · rename_i n r hh
+    obtain ⟨hbs, hn⟩ := readHead_ok_str _ _ _ hh
+    by_cases hl : r.length < n
+    · simp [hl] at hb
+    · simp only [hl, if_false, Except.ok.injEq, Prod.mk.injEq] at hb
+      obtain ⟨hb1, hr⟩ := hb
+      have hrn : r.length = n := by
+        have := congrArg List.length hr
+        simp only [List.length_drop, List.length_nil] at this
+        omega
+      subst hrn
+      rw [hbs, List.append_assoc]
+      have := readHead_header_str r.length hn (r ++ rest)
+      simp only [readRaw, this, List.length_append, List.take_left', List.drop_left']
+      rw [if_neg (by omega)]
+  · rename_i n r hh
+    obtain ⟨hbs, hn⟩ := readHead_ok_list _ _ _ hh
+    by_cases hl : r.length < n
+    · simp [hl] at hb
+    · simp only [hl, if_false, Except.ok.injEq, Prod.mk.injEq] at hb
+      obtain ⟨hb1, hr⟩ := hb
+      have hrn : r.length = n := by
+        have := congrArg List.length hr
+        simp only [List.length_drop, List.length_nil] at this
+        omega
+      subst hrn
+      rw [hbs, List.append_assoc]
+      have := readHead_header_list r.length hn (r ++ rest)
+      simp only [readRaw, this, List.length_append, List.take_left', List.drop_left']
+      rw [if_neg (by omega)]
+
+theorem rawOk_ne_nil (b : Bytes) (hb : rawOk b = true) : b ≠ [] := by
+  intro h; subst h; simp [rawOk, readRaw, readHead] at hb
+
+/-! ### readItem -/
+
+theorem readItem_enc (it : Item) (hs : it.sizeOk = true) (rest : Bytes) :
+    readItem (enc it ++ rest) = .ok (it, rest) := by
+  unfold readItem
+  have hw := weight_le it
+  rw [decItem_enc it hs _ rest (by simp only [List.length_append]; omega)]
+
+theorem readItem_ok (bs : Bytes) (it : Item) (rest : Bytes) (h : readItem bs = .ok (it, rest)) :
+    bs = enc it ++ rest ∧ it.sizeOk = true := by
+  unfold readItem at h
+  split at h
+  · rename_i r hd
+    simp only [Except.ok.injEq] at h
+    subst h
+    exact (dec_canon _).1 _ _ _ hd
+  · simp at h
